@@ -8,6 +8,7 @@ package c19
 import (
 	"fmt"
 	"math/rand"
+	"os"
 	"time"
 
 	"github.com/whatap/golib/util/dateutil"
@@ -122,9 +123,18 @@ func Run(c *core.Ctx) error {
 	// DateFormat.Parse builds its result in time.Now().Location(); the property speaks about UTC.
 	// The runner sets TZ=UTC; pinning the process-local zone here makes the driver independent of
 	// the environment it is started in.
-	time.Local = time.UTC
+	zone := c.Args["zone"]
+	if zone != "" && os.Getenv(zoneChildEnv) == "" {
+		return reexecInZones(c, zone) // gen zone: child processes whose local zone is in force from their first instruction
+	}
+	if zone != "" {
+		zone = os.Getenv(zoneChildEnv)
+	}
+	if zone == "" {
+		time.Local = time.UTC
+	}
 
-	c.Rule = "(A) every day of 2000-2099 (quick: every 7th day and the first/last day of every month) at 00:00:00.000, 00:00:00.005, 09:05:07.050, 12:00:00.000, 23:59:59.999 and one random time: all ten helper outputs and GetYmdTime of the day's text, one event per instant; (B) every DateFormat pattern of up to 4 field letters (quick: up to 3 and every 9th of 4) and full 7-field patterns, with 7 separator styles, formatted and parsed back on boundary and random instants; (S) every minute boundary -1/0/+1 ms of the century swept against the transliteration, sampled triples judged by TLC; (Q) sequences of calls on the same package-level helpers / the same DateFormat value in adversarial order (t-1 ms, t, t+1 ms around a boundary of every unit from second to year in both directions, several instants of one bucket of every unit, exactly one unit apart, alternating far-apart and repeated instants, descending runs, instants differing in one calendar field, the clock-reading variants in between), helpers called instant by instant or helper by helper; an instant is non-trivial if it is not 2000-01-01 00:00:00.000, a round trip if its pattern has a field letter; distinct by (day, ms) resp. (pattern, day, ms)"
+	c.Rule = "(A) every day of 2000-2099 (quick: every 7th day and the first/last day of every month) at 00:00:00.000, 00:00:00.005, 09:05:07.050, 12:00:00.000, 23:59:59.999 and one random time: all ten helper outputs and GetYmdTime of the day's text, one event per instant; (B) every DateFormat pattern of up to 4 field letters (quick: up to 3 and every 9th of 4) and full 7-field patterns, with 7 separator styles, formatted and parsed back on boundary and random instants; (S) every minute boundary -1/0/+1 ms of the century swept against the transliteration, sampled triples judged by TLC; (Q) sequences of calls on the same package-level helpers / the same DateFormat value in adversarial order (t-1 ms, t, t+1 ms around a boundary of every unit from second to year in both directions, several instants of one bucket of every unit, exactly one unit apart, alternating far-apart and repeated instants, descending runs, instants differing in one calendar field, the clock-reading variants in between), helpers called instant by instant or helper by helper; (K) gen conc: 4 x GOMAXPROCS goroutines calling every helper and their own DateFormat values on a list of instants at once, every distinct value returned recorded; an instant is non-trivial if it is not 2000-01-01 00:00:00.000, a round trip if its pattern has a field letter; distinct by (day, ms) resp. (pattern, day, ms)"
 
 	traces := map[string]*hist{}
 	tr := func(name string) *hist {
@@ -134,11 +144,15 @@ func Run(c *core.Ctx) error {
 		return traces[name]
 	}
 
+	if zone != "" {
+		return runZone(c, tr, zone)
+	}
 	runDays(c, tr)
 	runFormat(c, tr)
 	runSweep(c, tr)
 	runSeq(c, tr)
 	runFmtSeq(c, tr)
+	runConc(c, tr)
 	return nil
 }
 
